@@ -112,6 +112,21 @@ def near180_cases(ctx, n):
     return out
 
 
+def high_e_cases(ctx, n):
+    """0.2 <= e0 <= 0.47 with a period below 225 min: the largest eccentricities an accepted ordinary orbit can have
+    (perigee >= 220 km), partly beyond eL^2 <= 4/25 where the convergence / accuracy theorems stop"""
+    out = []
+    for _ in range(n):
+        f = tlegen.random_fields(ctx.rng)
+        f["ecc"] = ctx.rng.randint(2000000, 4600000) if ctx.rng.random() < 0.5 else ctx.rng.randint(4000000, 4550000)
+        a_min = 1.045 / (1 - f["ecc"] * 1e-7)                       # perigee above 220 km with some room
+        mm_max = 0.0743669161 / a_min ** 1.5 * 1440.0 / (2 * math.pi)
+        f["mm"] = ctx.rng.uniform(6.42, max(6.45, mm_max - 0.02))
+        l1, l2 = tlegen.make(**f)
+        out.append((l1, l2, ctx.rng.choice([0.0, ctx.rng.uniform(-1440, 1440), ctx.rng.uniform(-86400, 86400)])))
+    return out
+
+
 def island_cases(ctx, n):
     """the accepted high-eccentricity island (DESIGN section 9, N6): e0 >= 0.9993 with 3 cos^2 i < 1"""
     out = []
@@ -138,7 +153,7 @@ def run(ctx):
         "proved over the reals (props/C01_newton.v): for eL^2 <= 4/25 the regenerated iterates are the second-order step f / (f' + f'' f / 2f'), the first-step clamp is inactive, each step squares the error (factor 43/50), the sixth stopping test cannot fail, so exit 10 (no convergence, last iterate returned unchecked) is unreachable and the 1 mm / 1 um/s claim holds for EVERY answered propagation with a <= 4 (C01_answered_position_accuracy, both leaves)",
         "proved (C01_answered_when_healthy*, C01_iss_answered): decay guards, eL^2 <= 4/25 and osculating perigee >= 1.005 earth radii imply that the propagation IS answered; the ISS set at epoch meets every hypothesis of the accuracy theorem (interval arithmetic), so none of the theorems is vacuous; input-only form (C01_accuracy_at_epoch_or_drag_free): an accepted set with e0 <= 0.39 and TLE mean motion 6.4..18 rev/day, at epoch or drag-free at any time, is answered within 1 mm / 1 um/s of the report",
         "not proved: convergence of the Newton iteration for eL^2 > 4/25 (e above about 0.4); binary64 rounding -- both sampled by the oracle",
-        "exact oracle: a sample of the cases and an extra stratum on the accepted high-eccentricity island (e0 >= 0.9993) are compared with the report's equations evaluated at 60 digits (checks/mpref_tool.py under python3-vt/mpmath, the same source text as the binary64 reference); skipped, and said so, if python3-vt is missing",
+        "exact oracle: a sample of the cases, probes at 179.985 .. 179.9999 deg, a stratum at 0.2 <= e0 <= 0.47 (reaching beyond eL^2 <= 4/25, where the convergence and accuracy theorems stop) and a stratum on the accepted high-eccentricity island (e0 >= 0.9993) are compared with the report's equations evaluated at 60 digits (checks/mpref_tool.py under python3-vt/mpmath, the same source text as the binary64 reference); skipped, and said so, if python3-vt is missing",
         "translator trusted for 'emitted term = what the code computes over R'; self-checked each run against the interpreter (outcome class and state to 1e-6 km)",
     ]
     numeric.regen(ctx, "astronomy")
@@ -227,7 +242,7 @@ def run(ctx):
             ctx.violation("an element of an array-time answer differs from the Spacetrack Report #3 model by more than 1 mm / 1 um/s", worst_k)
     # ---------------- exact oracle (60 digits), incl. the accepted high-eccentricity island ----------------
     recs = []
-    for (l1, l2, minutes), island in [(c, False) for c in cases[:ctx.n(60, 300)] + near180_cases(ctx, ctx.n(36, 240))] + [(c, True) for c in island_cases(ctx, ctx.n(60, 600))]:
+    for (l1, l2, minutes), island in [(c, False) for c in cases[:ctx.n(60, 300)] + near180_cases(ctx, ctx.n(36, 240)) + high_e_cases(ctx, ctx.n(80, 800))] + [(c, True) for c in island_cases(ctx, ctx.n(60, 600))]:
         try:
             tle = tlefile.Tle("X", line1=l1, line2=l2)
             orb = Orbital("X", line1=l1, line2=l2)
@@ -277,6 +292,7 @@ def run(ctx):
                            "eL2": float(o["eL2"]), "distance_km": rr, "amplified_rounding_bound_km": bound_p})
         ctx.extra["exact_oracle_compared"] = n_exact
         ctx.extra["exact_oracle_island"] = n_island
+        ctx.extra["exact_oracle_beyond_proved_eL2"] = sum(1 for r, o in zip(recs, exact) if "error" not in o and not r["island"] and float(o["eL2"]) > 0.16)
         ctx.extra["exact_oracle_worst_ordinary_pos_diff_km"] = worst_ord
     # ---------------- AIAA-2006-6753 verification vectors (5 mm) ----------------
     n_aiaa = 0
